@@ -55,6 +55,9 @@ Definition opt_ps (ps : bytes) : bytes := match ps with [] => [] | _ => SC4 ++ p
 Definition key_header_ps (sps pps : bytes) : bytes := AUD ++ opt_ps sps ++ opt_ps pps ++ SC3.
 Definition key_header (c : cfg) : bytes := key_header_ps (c_sps c) (c_pps c).
 (* VideoMeta.Sps/Pps assigned (SDP sprop-parameter-sets absent: the depacketizer fills them from the stream) *)
+Definition set_path (c : cfg) (path : bytes) : cfg :=
+  {| c_frag := c_frag c; c_rate := c_rate c; c_mem := c_mem c; c_copy := c_copy c; c_path := path;
+     c_sps := c_sps c; c_pps := c_pps c; c_pick := c_pick c |}.
 Definition set_ps (c : cfg) (sps pps : bytes) : cfg :=
   {| c_frag := c_frag c; c_rate := c_rate c; c_mem := c_mem c; c_copy := c_copy c; c_path := c_path c;
      c_sps := sps; c_pps := pps; c_pick := c_pick c |}.
@@ -406,6 +409,29 @@ Definition render_entry (e : entry) : bytes :=
 Definition render (v : plview) : bytes :=
   S_HEAD ++ dec (v_target v) ++ S_MSEQ ++ dec (v_mseq v) ++ [10; 10] ++ flat_map render_entry (v_entries v).
 
+(* the playlist as lines; [render] is these lines, each followed by LF (render_lines in the proofs) *)
+Definition L_EXTM3U : bytes := [35;69;88;84;77;51;85].
+Definition L_VERSION : bytes := [35;69;88;84;45;88;45;86;69;82;83;73;79;78;58;51].
+Definition L_CACHE : bytes := [35;69;88;84;45;88;45;65;76;76;79;87;45;67;65;67;72;69;58;78;79].
+Definition L_TARGET : bytes := [35;69;88;84;45;88;45;84;65;82;71;69;84;68;85;82;65;84;73;79;78;58].
+Definition L_MSEQ : bytes := [35;69;88;84;45;88;45;77;69;68;73;65;45;83;69;81;85;69;78;67;69;58].
+Definition L_DISC : bytes := [35;69;88;84;45;88;45;68;73;83;67;79;78;84;73;78;85;73;84;89].
+Definition tok_suffix (tok : bytes) : bytes := match tok with [] => [] | t => S_TOKEN ++ t end.
+Definition entry_lines (e : entry) : list bytes :=
+  (if e_disc e then [L_DISC] else []) ++ [S_INF ++ fmt_millis (e_ms e) ++ [44]; e_uri e ++ tok_suffix (e_tok e)].
+Definition view_lines (v : plview) : list bytes :=
+  [L_EXTM3U; L_VERSION; L_CACHE; L_TARGET ++ dec (v_target v); L_MSEQ ++ dec (v_mseq v); []] ++
+  flat_map entry_lines (v_entries v).
+Definition unlines (ls : list bytes) : bytes := flat_map (fun l => l ++ [10]) ls.
+
+(* reading a playlist the way a player does, independently of how it was produced: the lines that are neither empty
+   nor tags/comments ('#') are the URIs *)
+Definition no_lf (s : bytes) : bool := forallb (fun b => negb (b =? 10)) s.
+Definition is_uri_line (l : bytes) : bool := match l with [] => false | b :: _ => negb (b =? 35) end.
+Definition uri_lines (raw : bytes) : list bytes := filter is_uri_line (split_on 10 raw).
+(* what the URI line for number [seq] must be, byte for byte, for the caller's token *)
+Definition uri_line (c : cfg) (tok : bytes) (seq : Z) : bytes := seg_uri c seq ++ tok_suffix tok.
+
 (* ------------------------------------------------------------------ histories *)
 Inductive op :=
 | OFrame (f : frame)
@@ -606,6 +632,10 @@ Definition ok_step (c : cfg) (dtok : bytes) (strict : bool) (m : rst * sobs) (o 
   | None, None => true
   | Some (v, raw), Some (mv, _) =>
       bytes_eqb (render v) raw && view_ok c dtok (o_live o) v && view_eqb v mv
+      (* the URI lines of the text as served are, byte for byte, the URIs of exactly the numbers that resolve, each with
+         the caller's token (a token or path with a line feed cannot be carried by a line-based playlist) *)
+      && (negb (no_lf dtok) || negb (no_lf (c_path c))
+          || list_eqb bytes_eqb (uri_lines raw) (map (uri_line c dtok) (o_live o)))
   | _, _ => false
   end
   (* only the window resolves; storage is bounded *)
